@@ -375,6 +375,12 @@ type c43Rig struct {
 	closers []func()
 	served  chan error // result of the serving goroutine
 	wrapExt bool
+	// extra opens one more connection to the same agent (its own ServeAgent
+	// goroutine, as a server does per accepted connection) and returns a
+	// system under test speaking over it; nil where that makes no sense.
+	extra func() c43SUT
+	// extraPanics collects panics of the additional serving goroutines
+	extraPanics chan any
 }
 
 func (r *c43Rig) close() {
@@ -391,6 +397,13 @@ func (r *c43Rig) close() {
 
 // serveErr reports a panic of the serving goroutine, if it has ended.
 func (r *c43Rig) serveErr() error {
+	if r.extraPanics != nil {
+		select {
+		case p := <-r.extraPanics:
+			return &panicError{p}
+		default:
+		}
+	}
 	if r.served == nil {
 		return nil
 	}
@@ -434,6 +447,47 @@ func newC43Rig(w *c43World, mode string, wrapExt bool, seed uint64) (*c43Rig, er
 			}()
 			err = f(conn)
 		}()
+	}
+	r.extraPanics = make(chan any, 16)
+	extraConn := func(f func(io.ReadWriter) error) *memConn {
+		cc, sc := memPipe()
+		done := make(chan struct{})
+		go func() {
+			defer func() {
+				if p := recover(); p != nil {
+					select {
+					case r.extraPanics <- p:
+					default:
+					}
+				}
+				sc.Close()
+				close(done)
+			}()
+			f(sc)
+		}()
+		r.closers = append(r.closers, func() {
+			cc.Close()
+			select {
+			case <-done:
+			case <-time.After(20 * time.Second):
+			}
+		})
+		return cc
+	}
+	switch mode {
+	case "client-pipeline":
+		r.extra = func() c43SUT {
+			return &agentSUT{w: w, a: agent.NewClient(extraConn(func(rw io.ReadWriter) error { return agent.ServeAgent(served, rw) }))}
+		}
+	case "client-serial":
+		r.extra = func() c43SUT {
+			cc := extraConn(func(rw io.ReadWriter) error { return agent.ServeAgent(served, rw) })
+			return &agentSUT{w: w, a: agent.NewClient(noCloser{cc, cc})}
+		}
+	case "raw":
+		r.extra = func() c43SUT {
+			return &rawSUT{w: w, c: &ref.RawClient{RW: extraConn(func(rw io.ReadWriter) error { return agent.ServeAgent(served, rw) })}}
+		}
 	}
 	switch mode {
 	case "direct":
